@@ -39,6 +39,15 @@ def encoder():
     return _ENC
 
 
+_COMPILING = {}
+
+
+def compiling(what):
+    if what not in _COMPILING:
+        _COMPILING[what] = (sut.Decoder if what == 'dec' else sut.Encoder)(compiled_template_cache_max=4)
+    return _COMPILING[what]
+
+
 def element_for_width(pl, w, kind):
     """(ids of a one-field template of width w, element id) using Table B of version 33"""
     B = pl.tables.B
@@ -280,6 +289,11 @@ def check_pair(pair):
     # on every third case the numbers are handed over the way a user has them: off the element's grid (within 0.45 of a
     # unit of the last scaled digit, so that each still stands for the same grid point)
     off_grid = int(comp.key()[2:4], 16) % 3 == 0
+    # on every fourth case (templates in the domain of compilation) both forms go through template-compiling coders
+    use_compiling = int(comp.key()[4:6], 16) % 4 == 0 and not comp.decoded.unbalanced()
+    enc, dec = (compiling('enc'), compiling('dec')) if use_compiling else (encoder(), decoder())
+    if use_compiling:
+        out.classes.append('with_template_compilation')
     for name, case in (('compressed', comp), ('uncompressed', unc)):
         flat = encutil.flat_json_of_case(case, unpad=unpad)
         if off_grid:
@@ -297,10 +311,10 @@ def check_pair(pair):
                 if name == 'compressed':
                     out.classes.append('numbers_given_off_grid')
                 flat = rmessage.flat_json(case.meta, case.ids, rows)
-        oe = sut.call(encoder().process, flat)
+        oe = sut.call(enc.process, flat)
         if not oe.ok:
             return out.fail('encoder raised %s@%s (%s)' % (oe.exc_type, oe.frame, name), error=oe.msg)
-        od = sut.call(decoder().process, oe.value.serialized_bytes)
+        od = sut.call(dec.process, oe.value.serialized_bytes)
         if not od.ok:
             return out.fail('decoder raised %s@%s on the encoder output (%s)' % (od.exc_type, od.frame, name), error=od.msg)
         res[name] = (sut.observe(od.value), sut.nested_template_data(od.value))
